@@ -90,6 +90,7 @@ class StructInst:
         self.field_locals = {}
         self.conds = ()
         self.loops = loops
+        self.in_closure = False
 
 
 class Grammar:
@@ -146,7 +147,8 @@ class Flow:
                     self.bind(p, AV(av.flat()), env)
         elif k == "pstruct":
             for f in pat.get("fields") or []:
-                self.bind(f["pat"], AV(av.flat()), env)
+                pr = self._project(av, f.get("name"))
+                self.bind(f["pat"], pr if pr is not None else AV(av.flat()), env)
         elif k in ("pref", "pguard"):
             self.bind(pat.get("pat"), av, env)
         elif k == "por":
@@ -178,6 +180,21 @@ class Flow:
 
     def ev_lit(self, n, env, c):
         return AV()
+
+    def _project(self, av, fname):
+        """component `fname` of the struct instances in av (None when av holds no instance with such a field)"""
+        out = None
+        for a in av.flat():
+            if a[0] == "S":
+                inst = self.g.structs[a[1]]
+                if fname in inst.fields:
+                    out = (out or AV()).union(inst.fields[fname])
+        return out
+
+    def ev_field(self, n, env, c):
+        base = self.ev(n.get("e"), env)
+        pr = self._project(base, n.get("name"))
+        return pr if pr is not None else base
 
     def ev_fmt(self, n, env, c):
         for a in n.get("args") or []:
@@ -309,7 +326,12 @@ class Flow:
         return self._loop(n, env, None, n["body"], "for")
 
     def ev_closure(self, n, env, c):
-        return self.ev(n["body"], env)
+        # parameters of a closure are filled by whoever calls it: unknown to this analysis
+        self._cdepth = getattr(self, "_cdepth", 0) + (1 if n.get("params") else 0)
+        try:
+            return self.ev(n["body"], env)
+        finally:
+            self._cdepth -= (1 if n.get("params") else 0)
 
     def ev_tup(self, n, env, c):
         return AV((), [self.ev(x, env).union(AV()) for x in n["es"]])
@@ -336,6 +358,7 @@ class Flow:
         self.g.structs.append(inst)
         inst.conds = tuple(self.condstack)
         inst.ifnodes = self.ifnodes
+        inst.in_closure = getattr(self, "_cdepth", 0) > 0
         for f in n.get("fields") or []:
             inst.fields[f["name"]] = self.ev(f["e"], env)
             fe = peel(f["e"])
